@@ -186,6 +186,13 @@ theorem Fr.carry {A o1 o2 : List Nat} {s s1 s2 : St} (h1 : Fr A s s1 o1) (h2 : F
       · exact h2.out i h⟩
   exact h1.comp h3
 
+theorem Fr.seq {A o1 o2 : List Nat} {s s1 s2 : St} (h1 : Fr A s s1 o1) (h2 : Fr A s1 s2 o2) :
+    Fr A s s2 (o1 ++ o2) :=
+  h1.carry (h2.weaken (fun _ h => List.mem_append_left _ h) (fun _ h => h))
+
+theorem Fr.err {A o : List Nat} {s s' : St} (h : Fr A s s' o) : Fr A s s' [] :=
+  ⟨h.mono, h.wr, by simp⟩
+
 def resIds : Res → List Nat
   | .ok v => v.mutIds
   | .error _ => []
@@ -240,6 +247,11 @@ theorem mkSeq_fr (k : Kind) (xs : List Val) (wr : Bool) (s : St) :
     · exact Fr.refl (by simp [resIds])
   · exact mk_fr k [] xs wr s
 
+theorem take_ids_sub (n : Nat) (xs : List Val) : ∀ i ∈ mutIdsL (xs.take n), i ∈ mutIdsL xs := by
+  intro i hi
+  obtain ⟨v, hv, h⟩ := mem_mutIdsL.mp hi
+  exact mem_mutIdsL.mpr ⟨v, List.mem_of_mem_take hv, h⟩
+
 theorem convBare_fr (o : Opts) (k : Kind) (v : Val) (s : St) :
     Fr v.mutIds s (convBare o k v s).2 (resIds (convBare o k v s).1) := by
   have hnil : ∀ (e : Err) (s : St), Fr v.mutIds s s (resIds (.error e)) := fun e s => Fr.refl (by simp [resIds])
@@ -265,7 +277,13 @@ theorem convBare_fr (o : Opts) (k : Kind) (v : Val) (s : St) :
               · split
                 · exact (mk_fr k [] [] false s).weaken (by simp [mutIdsL]) (fun _ h => h)
                 · exact (mk_fr k [] [Val.node j k' ks xs] false s).weaken hatom (fun _ h => h)
-          · exact hnil _ _
+          · split
+            · split
+              · exact hnil _ _
+              · split
+                · exact hnil _ _
+                · exact (mk_fr k [] [Val.node j k' ks xs] false s).weaken hatom (fun _ h => h)
+            · exact hnil _ _
     | none => simp only; split; exact hnil _ _; exact (mkSeq_fr k [Val.none] false s).weaken hatom (fun _ h => h)
     | int n => simp only; split; exact hnil _ _; exact (mkSeq_fr k [Val.int n] false s).weaken hatom (fun _ h => h)
     | str x => simp only; split; exact hnil _ _; exact (mkSeq_fr k [Val.str x] false s).weaken hatom (fun _ h => h)
@@ -285,7 +303,91 @@ theorem convBare_fr (o : Opts) (k : Kind) (v : Val) (s : St) :
       | none => exact hnil _ _
       | int n => exact hnil _ _
       | str x => exact hnil _ _
-    · exact hnil _ _
+    · split
+      · cases v with
+        | node j k' ks xs =>
+          simp only
+          split
+          · exact hsame
+          · exact hnil _ _
+        | none => exact hnil _ _
+        | int n => exact hnil _ _
+        | str x => exact hnil _ _
+      · exact hnil _ _
+
+theorem laxCut_fr (n : Nat) (v : Val) (s : St) :
+    Fr v.mutIds s (laxCut n v s).2 (resIds (laxCut n v s).1) := by
+  cases v with
+  | node j k ks xs =>
+    simp only [laxCut]
+    split
+    · exact (mk_fr k [] (xs.take n) false s).weaken
+        (fun i hi => mutIdsL_sub_node (take_ids_sub n xs i hi)) (fun _ h => h)
+    · exact Fr.refl (by simp [resIds])
+  | none => exact Fr.refl (by simp [laxCut, resIds])
+  | int _ => exact Fr.refl (by simp [laxCut, resIds])
+  | str _ => exact Fr.refl (by simp [laxCut, resIds])
+
+theorem andThen_fr (A : List Nat) (c : Comp) (f : Val → Comp) (s : St)
+    (hc : Fr A s (c s).2 (resIds (c s).1))
+    (hf : ∀ w s, Fr w.mutIds s (f w s).2 (resIds (f w s).1)) :
+    Fr A s (andThen c f s).2 (resIds (andThen c f s).1) := by
+  unfold andThen
+  cases hr : c s with
+  | mk r s1 =>
+    rw [hr] at hc
+    cases r with
+    | error e => exact hc.err
+    | ok w =>
+      simp only
+      exact hc.comp ((hf w s1).weaken (fun i hi => List.mem_append_right _ (by simpa [resIds] using hi)) (fun _ h => h))
+
+theorem consLength_fr (c : Option (Nat × Bool)) (v : Val) (s : St) :
+    Fr v.mutIds s (consLength c v s).2 (resIds (consLength c v s).1) := by
+  unfold consLength
+  cases c with
+  | none => exact Fr.refl (by simp [resIds])
+  | some p =>
+    obtain ⟨n, lax⟩ := p
+    simp only
+    split
+    · exact Fr.refl (by simp [resIds])
+    · split
+      · exact laxCut_fr n v s
+      · exact Fr.refl (by simp [resIds])
+
+theorem consMax_fr (c : Option (Nat × Bool)) (v : Val) (s : St) :
+    Fr v.mutIds s (consMax c v s).2 (resIds (consMax c v s).1) := by
+  unfold consMax
+  cases c with
+  | none => exact Fr.refl (by simp [resIds])
+  | some p =>
+    obtain ⟨n, lax⟩ := p
+    simp only
+    split
+    · exact Fr.refl (by simp [resIds])
+    · split
+      · exact laxCut_fr n v s
+      · exact Fr.refl (by simp [resIds])
+
+theorem consMin_fr (c : Option Nat) (v : Val) (s : St) :
+    Fr v.mutIds s (consMin c v s).2 (resIds (consMin c v s).1) := by
+  unfold consMin
+  cases c with
+  | none => exact Fr.refl (by simp [resIds])
+  | some n =>
+    simp only
+    split <;> exact Fr.refl (by simp [resIds])
+
+/-- the length validators never write to the validated object: a lax cut is a new object -/
+theorem applyCons_fr (lg mx : Option (Nat × Bool)) (mn : Option Nat) (v : Val) (s : St) :
+    Fr v.mutIds s (applyCons lg mx mn v s).2 (resIds (applyCons lg mx mn v s).1) := by
+  unfold applyCons
+  apply andThen_fr
+  · apply andThen_fr
+    · exact consLength_fr lg v s
+    · exact consMax_fr mx
+  · exact consMin_fr mn
 
 /-! ### defaults -/
 
@@ -354,24 +456,38 @@ theorem copyValue_fr (v : Val) (s : St) :
   exact ⟨h1, fun i hi => Or.inl (h2 ▸ hi), fun i hi => (h3 i hi).symm⟩
 
 /-- `get_default` hands out only objects it allocated itself — or the opaque objects of the declared default -/
-theorem getDefault_fr (d : Dflt) (s : St) :
-    Fr d.opqIds s (getDefault d s).2 (optIds (getDefault d s).1) := by
+theorem getDefault0_fr (d : Dflt) (s : St) :
+    Fr d.opqIds s (getDefault0 d s).2 (optIds (getDefault0 d s).1) := by
   cases d with
-  | none => exact Fr.refl (by simp [getDefault, optIds])
+  | none => exact Fr.refl (by simp [getDefault0, optIds])
   | val v =>
-    simp only [getDefault, optIds]
+    simp only [getDefault0, optIds]
     exact (copyValue_fr v s).weaken (by simp [Dflt.opqIds, Dflt.vals, opqIdsL]) (fun _ h => h)
   | shared v =>
-    simp only [getDefault, optIds]
+    simp only [getDefault0, optIds]
     exact (copyValue_fr v s).weaken (by simp [Dflt.opqIds, Dflt.vals, opqIdsL]) (fun _ h => h)
   | fresh sh =>
-    simp only [getDefault, optIds]
+    simp only [getDefault0, optIds]
     obtain ⟨a1, a2, a3⟩ := build_spec sh s
     have hb : Fr (Dflt.fresh sh).opqIds s (sh.build s).2 (sh.build s).1.mutIds :=
       ⟨a1, fun i hi => Or.inl (a2 ▸ hi), fun i hi => Or.inr (a3 i hi)⟩
     refine hb.comp ((copyValue_fr _ _).weaken ?_ (fun _ h => h))
     intro i hi
     exact List.mem_append_right _ (opqIds_sub_mutIds _ i hi)
+
+/-- the opaque objects of a `force_default` value -/
+def ROpts.opqIds (ro : ROpts) : List Nat := match ro.force with | some a => a.opqIds | none => []
+
+theorem getDefault_fr (ro : ROpts) (d : Dflt) (s : St) :
+    Fr (d.opqIds ++ ro.opqIds) s (getDefault ro d s).2 (optIds (getDefault ro d s).1) := by
+  unfold getDefault
+  split
+  · exact Fr.refl (by simp [optIds])
+  · cases hf : ro.force with
+    | none => simp only; exact (getDefault0_fr d s).weaken (fun i h => List.mem_append_left _ h) (fun _ h => h)
+    | some a =>
+      simp only [optIds]
+      exact (copyValue_fr a s).weaken (fun i h => List.mem_append_right _ (by simp [ROpts.opqIds, hf, h])) (fun _ h => h)
 
 /-! ### list traversals -/
 
@@ -456,29 +572,33 @@ theorem lookupKV_mem (k : String) : ∀ (ks : List String) (xs : List Val) (v : 
     · simp at h; simp [h]
     · exact List.mem_cons_of_mem _ (lookupKV_mem k as xs v h)
 
-theorem Fr.seq {A o1 o2 : List Nat} {s s1 s2 : St} (h1 : Fr A s s1 o1) (h2 : Fr A s1 s2 o2) :
-    Fr A s s2 (o1 ++ o2) :=
-  h1.carry (h2.weaken (fun _ h => List.mem_append_left _ h) (fun _ h => h))
-
-theorem Fr.err {A o : List Nat} {s s' : St} (h : Fr A s s' o) : Fr A s s' [] :=
-  ⟨h.mono, h.wr, by simp⟩
+theorem lookupF_mem (ci : Bool) (f : Field) : ∀ (ks : List String) (xs : List Val) (v : Val),
+    lookupF ci f ks xs = some v → v ∈ xs
+  | [], _, v, h => by simp [lookupF] at h
+  | _ :: _, [], v, h => by simp [lookupF] at h
+  | a :: as, x :: xs, v, h => by
+    simp only [lookupF] at h
+    split at h
+    · simp at h; simp [h]
+    · exact List.mem_cons_of_mem _ (lookupF_mem ci f as xs v h)
 
 /-! ### parse_data -/
 
-theorem fieldsFF_fr (rec : Ty → Val → Comp) (A : List Nat) (ks : List String) (xs : List Val)
+theorem fieldsFF_fr (rec : Ty → Val → Comp) (ro : ROpts) (ci : Bool) (A : List Nat) (ks : List String) (xs : List Val)
     (hx : ∀ v ∈ xs, ∀ i ∈ v.mutIds, i ∈ A)
     (hrec : ∀ t v, (∀ i ∈ v.mutIds, i ∈ A) → ∀ s, Fr A s (rec t v s).2 (resIds (rec t v s).1))
+    (hro : ∀ i ∈ ro.opqIds, i ∈ A)
     (fields : List Field) (hB : ∀ f ∈ fields, ∀ i ∈ f.dflt.opqIds, i ∈ A) (s : St) :
-    Fr A s (fieldsFF rec ks xs fields s).2 (resIdsKV (fieldsFF rec ks xs fields s).1) := by
+    Fr A s (fieldsFF rec ro ci ks xs fields s).2 (resIdsKV (fieldsFF rec ro ci ks xs fields s).1) := by
   induction fields generalizing s with
   | nil => exact Fr.refl (by simp [fieldsFF, resIdsKV, mutIdsL])
   | cons f fs ih =>
     have ih' := ih (fun g hg => hB g (List.mem_cons_of_mem _ hg))
     simp only [fieldsFF]
-    cases hl : lookupKV f.name ks xs with
+    cases hl : lookupF ci f ks xs with
     | some v =>
       simp only
-      have h1 := hrec f.ty v (hx v (lookupKV_mem _ _ _ _ hl)) s
+      have h1 := hrec f.ty v (hx v (lookupF_mem _ _ _ _ _ hl)) s
       cases hr : rec f.ty v s with
       | mk r s1 =>
         rw [hr] at h1
@@ -487,7 +607,7 @@ theorem fieldsFF_fr (rec : Ty → Val → Comp) (A : List Nat) (ks : List String
         | ok v' =>
           simp only
           have h2 := ih' s1
-          cases hr2 : fieldsFF rec ks xs fs s1 with
+          cases hr2 : fieldsFF rec ro ci ks xs fs s1 with
           | mk r2 s2 =>
             rw [hr2] at h2
             cases r2 with
@@ -499,30 +619,36 @@ theorem fieldsFF_fr (rec : Ty → Val → Comp) (A : List Nat) (ks : List String
               simpa [resIdsKV, resIds, mutIdsL] using hi
     | none =>
       simp only
-      have h1 := (getDefault_fr f.dflt s).weaken (hB f (by simp)) (fun _ h => h)
-      cases hg : getDefault f.dflt s with
-      | mk od s1 =>
-        rw [hg] at h1
-        cases od with
-        | none => exact h1.err
-        | some d =>
-          simp only
-          have h2 := ih' s1
-          cases hr2 : fieldsFF rec ks xs fs s1 with
-          | mk r2 s2 =>
-            rw [hr2] at h2
-            cases r2 with
-            | error e => exact (h1.seq h2).err
-            | ok kvs =>
-              simp only
-              refine (h1.seq h2).weaken (fun _ h => h) ?_
-              intro i hi
-              simpa [resIdsKV, optIds, mutIdsL] using hi
+      split
+      · exact Fr.refl (by simp [resIdsKV])
+      · have h1 := (getDefault_fr ro f.dflt s).weaken
+          (fun i hi => by rcases List.mem_append.mp hi with h | h; exact hB f (by simp) i h; exact hro i h) (fun _ h => h)
+        cases hg : getDefault ro f.dflt s with
+        | mk od s1 =>
+          rw [hg] at h1
+          cases od with
+          | none =>
+            simp only
+            have h2 := ih' s1
+            exact (h1.err.seq h2).weaken (fun _ h => h) (fun i hi => by simpa using hi)
+          | some d =>
+            simp only
+            have h2 := ih' s1
+            cases hr2 : fieldsFF rec ro ci ks xs fs s1 with
+            | mk r2 s2 =>
+              rw [hr2] at h2
+              cases r2 with
+              | error e => exact (h1.seq h2).err
+              | ok kvs =>
+                simp only
+                refine (h1.seq h2).weaken (fun _ h => h) ?_
+                intro i hi
+                simpa [resIdsKV, optIds, mutIdsL] using hi
 
-theorem dataLoop_fr (rec : Ty → Val → Comp) (A : List Nat) (fields : List Field)
+theorem dataLoop_fr (rec : Ty → Val → Comp) (ci : Bool) (A : List Nat) (fields : List Field)
     (hrec : ∀ t v, (∀ i ∈ v.mutIds, i ∈ A) → ∀ s, Fr A s (rec t v s).2 (resIds (rec t v s).1))
     (ks : List String) (xs : List Val) (hx : ∀ v ∈ xs, ∀ i ∈ v.mutIds, i ∈ A) (s : St) :
-    Fr A s (dataLoop rec fields ks xs s).2 (resIdsKV (dataLoop rec fields ks xs s).1) := by
+    Fr A s (dataLoop rec ci fields ks xs s).2 (resIdsKV (dataLoop rec ci fields ks xs s).1) := by
   induction xs generalizing ks s with
   | nil => cases ks <;> exact Fr.refl (by simp [dataLoop, resIdsKV, mutIdsL])
   | cons v vs ih =>
@@ -531,7 +657,7 @@ theorem dataLoop_fr (rec : Ty → Val → Comp) (A : List Nat) (fields : List Fi
     | cons k ks =>
       have ih' := ih ks (fun w hw => hx w (List.mem_cons_of_mem _ hw))
       simp only [dataLoop]
-      cases hfnd : fields.find? (fun f => f.name == k) with
+      cases hfnd : fields.find? (fun f => keyMatches ci f k) with
       | none => exact ih' s
       | some f =>
         simp only
@@ -544,7 +670,7 @@ theorem dataLoop_fr (rec : Ty → Val → Comp) (A : List Nat) (fields : List Fi
           | ok v' =>
             simp only
             have h2 := ih' s1
-            cases hr2 : dataLoop rec fields ks vs s1 with
+            cases hr2 : dataLoop rec ci fields ks vs s1 with
             | mk r2 s2 =>
               rw [hr2] at h2
               cases r2 with
@@ -555,9 +681,10 @@ theorem dataLoop_fr (rec : Ty → Val → Comp) (A : List Nat) (fields : List Fi
                 intro i hi
                 simpa [resIdsKV, resIds, mutIdsL] using hi
 
-theorem defaultLoop_fr (A : List Nat) (have_ : List String) (fields : List Field)
+theorem defaultLoop_fr (ro : ROpts) (A : List Nat) (have_ : List String) (fields : List Field)
+    (hro : ∀ i ∈ ro.opqIds, i ∈ A)
     (hB : ∀ f ∈ fields, ∀ i ∈ f.dflt.opqIds, i ∈ A) (s : St) :
-    Fr A s (defaultLoop have_ fields s).2 (resIdsKV (defaultLoop have_ fields s).1) := by
+    Fr A s (defaultLoop ro have_ fields s).2 (resIdsKV (defaultLoop ro have_ fields s).1) := by
   induction fields generalizing s with
   | nil => exact Fr.refl (by simp [defaultLoop, resIdsKV, mutIdsL])
   | cons f fs ih =>
@@ -565,43 +692,50 @@ theorem defaultLoop_fr (A : List Nat) (have_ : List String) (fields : List Field
     simp only [defaultLoop]
     split
     · exact ih' s
-    · have h1 := (getDefault_fr f.dflt s).weaken (hB f (by simp)) (fun _ h => h)
-      cases hg : getDefault f.dflt s with
-      | mk od s1 =>
-        rw [hg] at h1
-        cases od with
-        | none => exact h1.err
-        | some d =>
-          simp only
-          have h2 := ih' s1
-          cases hr2 : defaultLoop have_ fs s1 with
-          | mk r2 s2 =>
-            rw [hr2] at h2
-            cases r2 with
-            | error e => exact (h1.seq h2).err
-            | ok kvs =>
-              simp only
-              refine (h1.seq h2).weaken (fun _ h => h) ?_
-              intro i hi
-              simpa [resIdsKV, optIds, mutIdsL] using hi
+    · split
+      · exact Fr.refl (by simp [resIdsKV])
+      · have h1 := (getDefault_fr ro f.dflt s).weaken
+          (fun i hi => by rcases List.mem_append.mp hi with h | h; exact hB f (by simp) i h; exact hro i h) (fun _ h => h)
+        cases hg : getDefault ro f.dflt s with
+        | mk od s1 =>
+          rw [hg] at h1
+          cases od with
+          | none =>
+            simp only
+            have h2 := ih' s1
+            exact (h1.err.seq h2).weaken (fun _ h => h) (fun i hi => by simpa using hi)
+          | some d =>
+            simp only
+            have h2 := ih' s1
+            cases hr2 : defaultLoop ro have_ fs s1 with
+            | mk r2 s2 =>
+              rw [hr2] at h2
+              cases r2 with
+              | error e => exact (h1.seq h2).err
+              | ok kvs =>
+                simp only
+                refine (h1.seq h2).weaken (fun _ h => h) ?_
+                intro i hi
+                simpa [resIdsKV, optIds, mutIdsL] using hi
 
-theorem parseData_fr (rec : Ty → Val → Comp) (A : List Nat) (d : Decl) (ks : List String) (xs : List Val)
+theorem parseData_fr (rec : Ty → Val → Comp) (ro : ROpts) (A : List Nat) (d : Decl) (ks : List String) (xs : List Val)
     (hx : ∀ v ∈ xs, ∀ i ∈ v.mutIds, i ∈ A)
     (hrec : ∀ t v, (∀ i ∈ v.mutIds, i ∈ A) → ∀ s, Fr A s (rec t v s).2 (resIds (rec t v s).1))
+    (hro : ∀ i ∈ ro.opqIds, i ∈ A)
     (hB : ∀ f ∈ d.fields, ∀ i ∈ f.dflt.opqIds, i ∈ A) (s : St) :
-    Fr A s (parseData rec d ks xs s).2 (resIdsKV (parseData rec d ks xs s).1) := by
+    Fr A s (parseData rec ro d ks xs s).2 (resIdsKV (parseData rec ro d ks xs s).1) := by
   simp only [parseData]
   split
-  · have h1 := dataLoop_fr rec A d.fields hrec ks xs hx s
-    cases hr : dataLoop rec d.fields ks xs s with
+  · have h1 := dataLoop_fr rec d.ci A d.fields hrec ks xs hx s
+    cases hr : dataLoop rec d.ci d.fields ks xs s with
     | mk r s1 =>
       rw [hr] at h1
       cases r with
       | error e => exact h1.err
       | ok r1 =>
         simp only
-        have h2 := defaultLoop_fr A (r1.map (·.1)) d.fields hB s1
-        cases hr2 : defaultLoop (r1.map (·.1)) d.fields s1 with
+        have h2 := defaultLoop_fr ro A (r1.map (·.1)) d.fields hro hB s1
+        cases hr2 : defaultLoop ro (r1.map (·.1)) d.fields s1 with
         | mk r2 s2 =>
           rw [hr2] at h2
           cases r2 with
@@ -611,7 +745,7 @@ theorem parseData_fr (rec : Ty → Val → Comp) (A : List Nat) (d : Decl) (ks :
             refine (h1.seq h2).weaken (fun _ h => h) ?_
             intro i hi
             simpa [resIdsKV, mutIdsL_append] using hi
-  · exact fieldsFF_fr rec A ks xs hx hrec d.fields hB s
+  · exact fieldsFF_fr rec ro d.ci A ks xs hx hrec hro d.fields hB s
 
 /-! ### instances -/
 
@@ -672,11 +806,12 @@ theorem leak_of_field {E : Env} {k : Nat} {d : Decl} (hk : E[k]? = some d) :
   simp only [Env.dfltVals, Decl.dfltVals, List.mem_flatMap]
   exact ⟨d, hd, f, hf, hv⟩
 
-theorem initWith_fr (rec : Ty → Val → Comp) (A : List Nat) (E : Env) (k : Nat) (ks : List String) (xs : List Val)
+theorem initWith_fr (rec : Ty → Val → Comp) (ro : ROpts) (A : List Nat) (E : Env) (k : Nat) (ks : List String) (xs : List Val)
     (hx : ∀ v ∈ xs, ∀ i ∈ v.mutIds, i ∈ A)
     (hrec : ∀ t v, (∀ i ∈ v.mutIds, i ∈ A) → ∀ s, Fr A s (rec t v s).2 (resIds (rec t v s).1))
+    (hro : ∀ i ∈ ro.opqIds, i ∈ A)
     (hleak : ∀ i ∈ E.leak, i ∈ A) (s : St) :
-    Fr A s (initWith rec E k ks xs s).2 (resIds (initWith rec E k ks xs s).1) := by
+    Fr A s (initWith rec ro E k ks xs s).2 (resIds (initWith rec ro E k ks xs s).1) := by
   simp only [initWith]
   cases hk : E[k]? with
   | none => exact Fr.refl (by simp [resIds])
@@ -684,8 +819,8 @@ theorem initWith_fr (rec : Ty → Val → Comp) (A : List Nat) (E : Env) (k : Na
     simp only
     split
     · exact Fr.refl (by simp [resIds])
-    · have h1 := parseData_fr rec A d ks xs hx hrec (fun f hf i hi => hleak i (leak_of_field hk f hf i hi)) s
-      cases hr : parseData rec d ks xs s with
+    · have h1 := parseData_fr rec ro A d ks xs hx hrec hro (fun f hf i hi => hleak i (leak_of_field hk f hf i hi)) s
+      cases hr : parseData rec ro d ks xs s with
       | mk r s1 =>
         rw [hr] at h1
         cases r with
@@ -852,6 +987,18 @@ theorem conv_fr (E : Env) (A : List Nat) (hleak : ∀ i ∈ E.leak, i ∈ A) :
                   simp only
                   have h3 := mk_fr .tuple [] items' false s3
                   exact h12.comp (h3.weaken (fun i hi => List.mem_append_right _ (by simp [resIdsL, hi])) (fun _ h => h))
+    | con t lg mx mn =>
+      simp only [conv]
+      have h1 := ihA o t v hv s
+      cases hr : conv E o fuel t v s with
+      | mk r s1 =>
+        rw [hr] at h1
+        cases r with
+        | error e => exact h1.err
+        | ok w =>
+          simp only
+          exact h1.comp ((applyCons_fr lg mx mn w s1).weaken
+            (fun i hi => List.mem_append_right _ (by simpa [resIds] using hi)) (fun _ h => h))
     | opt t =>
       simp only [conv]
       cases v with
@@ -862,8 +1009,9 @@ theorem conv_fr (E : Env) (A : List Nat) (hleak : ∀ i ∈ E.leak, i ∈ A) :
     | data k =>
       simp only [conv]
       have hinit : ∀ (ks : List String) (xs : List Val), (∀ w ∈ xs, ∀ i ∈ w.mutIds, i ∈ A) →
-          Fr A s (initWith (conv E {} fuel) E k ks xs s).2 (resIds (initWith (conv E {} fuel) E k ks xs s).1) :=
-        fun ks xs hx => initWith_fr (conv E {} fuel) A E k ks xs hx (fun t w hw s => ihA {} t w hw s) hleak s
+          Fr A s (initWith (conv E {} fuel) {} E k ks xs s).2 (resIds (initWith (conv E {} fuel) {} E k ks xs s).1) :=
+        fun ks xs hx => initWith_fr (conv E {} fuel) {} A E k ks xs hx (fun t w hw s => ihA {} t w hw s)
+          (by simp [ROpts.opqIds]) hleak s
       cases v with
       | none => exact Fr.refl (by simp [resIds])
       | int n => exact Fr.refl (by simp [resIds])
@@ -906,20 +1054,20 @@ theorem conv_fr (E : Env) (A : List Nat) (hleak : ∀ i ∈ E.leak, i ∈ A) :
 
 /-! ### one parse through the public API -/
 
-theorem callWith_fr (optsOf : List (Option Opts) → Nat → Opts) (E : Env) (A : List Nat)
-    (hleak : ∀ i ∈ E.leak, i ∈ A) (target wrapper : Nat) (ks : List String) (xs : List Val)
+theorem callWith_fr (optsOf : List (Option Opts) → Nat → Opts) (ro : ROpts) (E : Env) (A : List Nat)
+    (hleak : ∀ i ∈ E.leak, i ∈ A) (hro : ∀ i ∈ ro.opqIds, i ∈ A) (target wrapper : Nat) (ks : List String) (xs : List Val)
     (hx : ∀ v ∈ xs, ∀ i ∈ v.mutIds, i ∈ A) (s : St) :
-    Fr A s (callWith optsOf E target wrapper ks xs s).2 (resIds (callWith optsOf E target wrapper ks xs s).1) := by
+    Fr A s (callWith optsOf ro E target wrapper ks xs s).2 (resIds (callWith optsOf ro E target wrapper ks xs s).1) := by
   simp only [callWith]
   cases hk : E[target]? with
   | none => exact Fr.refl (by simp [resIds])
   | some d =>
     simp only
     split
-    · have h1 := parseData_fr (conv E (optsOf d.wrappers wrapper) fuelDefault) A { d with dfs := false } ks xs hx
-        (fun t w hw s => conv_fr E A hleak fuelDefault _ t w hw s)
+    · have h1 := parseData_fr (conv E (optsOf d.wrappers wrapper) fuelDefault) {} A { d with dfs := false } ks xs hx
+        (fun t w hw s => conv_fr E A hleak fuelDefault _ t w hw s) (by simp [ROpts.opqIds])
         (fun f hf i hi => hleak i (leak_of_field hk f hf i hi)) s
-      cases hr : parseData (conv E (optsOf d.wrappers wrapper) fuelDefault) { d with dfs := false } ks xs s with
+      cases hr : parseData (conv E (optsOf d.wrappers wrapper) fuelDefault) {} { d with dfs := false } ks xs s with
       | mk r s1 =>
         rw [hr] at h1
         cases r with
@@ -954,8 +1102,8 @@ theorem callWith_fr (optsOf : List (Option Opts) → Nat → Opts) (E : Env) (A 
                   have h12 : Fr A s s2 (resIdsKV (Except.ok vals)) :=
                     (h1.carry h2.err).weaken (fun _ h => h) (fun i hi => by simpa using hi)
                   exact h12.comp (hb s2)
-    · exact initWith_fr (conv E {} fuelDefault) A E target ks xs hx
-        (fun t w hw s => conv_fr E A hleak fuelDefault _ t w hw s) hleak s
+    · exact initWith_fr (conv E {} fuelDefault) ro A E target ks xs hx
+        (fun t w hw s => conv_fr E A hleak fuelDefault _ t w hw s) hro hleak s
 
 /-! ### in-place writes -/
 
